@@ -110,6 +110,15 @@ OfScaled(k, q) ==
            m == IF p <= 23 THEN a * Pow2(23 - p) - 8388608
                            ELSE (a \div Pow2(p - 23)) - 8388608
        IN Bits(IF k < 0 THEN 1 ELSE 0, 127 + p - q, m)
+(* the same, also for results below the normal range: k * 2^-q as a subnormal float32 (exact when it  *)
+(* is a multiple of 2^-149 below 2^-126); q up to 149 + 30                                              *)
+OfScaledAny(k, q) ==
+  IF k = 0 THEN Zero
+  ELSE LET a == Abs(k)  p == Log2(a) IN
+       IF 127 + p - q >= 1 THEN OfScaled(k, q)
+       ELSE IF q <= 149 THEN Bits(IF k < 0 THEN 1 ELSE 0, 0, a * Pow2(149 - q))
+       ELSE Bits(IF k < 0 THEN 1 ELSE 0, 0, a \div Pow2(q - 149))
+
 (* Is k * 2^-q exactly representable (as a normal float32)? *)
 ScaledExact(k, q) ==
   k = 0 \/ LET a == Abs(k)  p == Log2(a) IN
